@@ -180,7 +180,26 @@ struct Runner {
             case 11: {
                 Pattern p;
                 if (!parsePattern(l, 1, nrx, p)) { ok = false; break; }
+                size_t depthBefore = router.depth();
                 router.shrink(buildKey(p));
+                // C13: a wildcard pattern at least as deep as the tree removes every dead branch
+                bool allWild = true;
+                for (auto &lv : p) if (!lv.rx || lv.id != 0) allWild = false;
+                if (allWild && p.size() + 1 >= depthBefore)
+                    for (auto &k : ever) {
+                        if (k.empty()) continue;
+                        bool liveBelow = false;
+                        for (auto &r : ref)
+                            if (r.present && r.key.size() >= k.size() && std::equal(k.begin(), k.end(), r.key.begin())) liveBelow = true;
+                        if (liveBelow) continue;
+                        Pattern kp;
+                        for (auto x : k) kp.push_back({false, x});
+                        if (router.exists(buildKey(kp))) {
+                            std::string ks;
+                            for (auto x : k) ks += "/" + std::string(NAMES[x]);
+                            oracle_fail("C13: a full-depth wildcard shrink left the dead key " + ks + " in the router");
+                        }
+                    }
                 break;
             }
             case 12: {
